@@ -141,7 +141,7 @@ def check_c01(case, stats):
 
 
 CHECKS = {'check_c01': check_c01}
-_B = {'quick': (24, 15), 'thorough': (160, 75)}
+_B = {'quick': (40, 20), 'thorough': (200, 75)}
 
 
 def shards(tier):
